@@ -53,6 +53,7 @@ type hop struct {
 	mu   sync.Mutex
 	att  int
 	wg   sync.WaitGroup
+	nc   int // connections accepted so far (TStart logs which one a transaction ran on and how many it had seen)
 }
 
 func newHop(lmtp, utf8 bool) (*hop, error) {
@@ -88,7 +89,20 @@ func (h *hop) serve() {
 
 var hopTempCode = "451" // per behaviour (sequential)
 
+// hopNoEnh: the next hop does not do ENHANCEDSTATUSCODES - its replies carry a basic code and a text only
+// (Cfg.Enh = false; per behaviour / per series, sequential)
+var hopNoEnh bool
+
 func code(res string) string {
+	if hopNoEnh {
+		switch res {
+		case "temp":
+			return hopTempCode + " scripted temporary failure"
+		case "perm":
+			return "550 scripted permanent failure"
+		}
+		return "250 ok"
+	}
 	switch res {
 	case "temp":
 		return hopTempCode + " 4.3.0 scripted temporary failure"
@@ -113,6 +127,10 @@ func (h *hop) handle(c net.Conn) {
 	if !wr("220 hop.example ready") {
 		return
 	}
+	h.mu.Lock()
+	h.nc++
+	cid, txns := h.nc, 0
+	h.mu.Unlock()
 	var (
 		plan  scripted.AttemptPlan
 		att   int
@@ -139,7 +157,11 @@ func (h *hop) handle(c net.Conn) {
 			if h.utf8 {
 				ext += "250-SMTPUTF8\r\n"
 			}
-			if !wr(ext + "250 ENHANCEDSTATUSCODES") {
+			last := "250 ENHANCEDSTATUSCODES"
+			if hopNoEnh {
+				last = "250 PIPELINING"
+			}
+			if !wr(ext + last) {
 				return
 			}
 		case "MAIL":
@@ -150,12 +172,16 @@ func (h *hop) handle(c net.Conn) {
 			if att-1 < len(h.plan) {
 				plan = h.plan[att-1]
 			}
+			// a connection the client keeps between messages (the pool of target.remote) serves the
+			// message the hop is set up for NOW
+			tr, id = h.tr, h.id
 			h.mu.Unlock()
 			res := plan.Start
 			if res == "" {
 				res = "ok"
 			}
-			tr.Emit("TStart", vtrace.Ev{"att": att, "res": res})
+			txns++
+			tr.Emit("TStart", vtrace.Ev{"att": att, "res": res, "conn": cid, "txn": txns})
 			if res == "unspec" {
 				return // drop
 			}
@@ -347,11 +373,13 @@ func runReal(t *testing.T, b Behaviour, w *bufio.Writer, hops map[hopKey]*hop, d
 	if b.Cfg.ErrShape == "421" {
 		hopTempCode = "421"
 	}
-	defer func() { useIdn = false; caseVar = false; uniLocal = false; hopTempCode = "451" }()
+	hopNoEnh = !b.Cfg.enh()
+	defer setUniForm(b.Cfg.UniForm)()
+	defer func() { useIdn = false; caseVar = false; uniLocal = false; hopTempCode = "451"; hopNoEnh = false }()
 	tr := vtrace.New(w, b.ID)
 	tr.Emit("Cfg", vtrace.Ev{"partial": b.Cfg.Partial, "bounce": b.Cfg.Bounce, "nullSender": b.Cfg.NullSender,
 		"mt": b.Cfg.Mt, "list": b.Cfg.List, "rw": []string{}, "utf8": b.Cfg.Utf8, "chain": false,
-		"idn": b.Cfg.Idn, "errtext": "", "real": true, "fwd": b.Cfg.Fwd, "sts": b.Cfg.Sts})
+		"idn": b.Cfg.Idn, "errtext": "", "real": true, "fwd": b.Cfg.Fwd, "sts": b.Cfg.Sts, "enh": b.Cfg.enh()})
 	hk := hopKey{b.Cfg.Partial && b.Cfg.Fwd != "remote", !b.Cfg.Idn || b.Cfg.Utf8}
 	h := hops[hk]
 	h.set(tr, PlanOf(b.Hist), idOf)
